@@ -564,6 +564,11 @@ def t_components_lemma(ctx):
     ctx.oblige("lemma", "components.fluxes_negated", And(p2 == -p1, i2 == -i1), timeout_ms=30000)
 
 
+def _find_islands(ctx):
+    from contracts import c02
+    return c02.t_find_islands(ctx, False)
+
+
 def _island_loop(ctx):
     from contracts import c03
     return c03.t_blind_numbers(ctx)
@@ -572,6 +577,8 @@ def _island_loop(ctx):
 def verify(S):
     targets = [("source_finder.SourceFinder.find_sources_in_image[filter]", t_filter),
                ("source_finder.find_islands[snr]", t_snr),
+               # the islands depend on |snr| only: the find_islands contract of C02 (mask = finite and |snr| >= flood, seeds |snr| > seed)
+               ("source_finder.find_islands", _find_islands),
                ("source_finder.SourceFinder.estimate_lmfit_parinfo[polarity_class]", t_polarity_class),
                ("source_finder.SourceFinder.estimate_lmfit_parinfo[summit_selection]", t_summit_selection),
                ("source_finder.SourceFinder.estimate_lmfit_parinfo[summit_params]", t_summit_params),
